@@ -8,6 +8,9 @@ import ElvProofs.C34.Utf8
 import ElvProofs.C34.Wcwidth
 import ElvProofs.C34.Trim
 import ElvProofs.C34.Buffer
+import ElvProofs.C34.TextView
+import ElvProofs.C34.Horizontal
+import ElvProofs.C34.TrimLines
 open Go C34 C34.Utf8
 
 /-! ## the width table -/
@@ -211,6 +214,22 @@ theorem C34_force_negative_panics (wd : Int → Int) (hwd : ∀ r, 0 ≤ wd r) (
 
 example : Force exWd exStr 2 = .ok [0x61, 0x20] ∧ exWd 0x20 = 1 := by decide
 
+/-! ## TrimEachLine -/
+
+/-- `TrimEachLine(s, w)` trims line by line: splitting the result at newlines gives
+exactly the `Trim`s of the lines of `s` (same number of lines, no line merged or
+split), and for `w ≥ 0` every line of the result is at most `w` columns wide. -/
+theorem C34_trimEachLine_fits (wd : Int → Int) (s : Bytes) (w : Int) :
+    splitNL (TrimEachLine wd s w) = (splitNL s).map (fun l => Trim wd l w) ∧
+    (0 ≤ w → ∀ l ∈ splitNL (TrimEachLine wd s w), Of wd l ≤ w) := by
+  refine ⟨trimEachLine_lines wd s w, fun hw l hl => ?_⟩
+  rw [trimEachLine_lines] at hl
+  obtain ⟨l0, _, rfl⟩ := List.mem_map.1 hl
+  exact C34_trim_width_le wd l0 w hw
+
+-- non-vacuity: "a世b\nab" at width 2 gives the lines "a" and "ab"
+example : splitNL (TrimEachLine exWd (exStr ++ [10, 0x61, 0x62]) 2) = [[0x61], [0x61, 0x62]] := by decide
+
 /-! ## term.BufferBuilder and the widgets
 
 `WdOK wd`: rune widths are in 0..2 and printable ASCII is one column wide; this
@@ -300,15 +319,20 @@ theorem C34_codearea_fits (wd : Int → Int) (ok : WdOK wd) (prompt before after
         (by rw [hbd]; omega) (Or.inl (by omega)) (by rw [hbd, hbl, hlen]; omega) (by omega)
       exact ⟨b', hb', by omega, fun l hl => by have := hfit l (hm' l hl); rw [hw] at this; exact this⟩
 
-/-! ## TextView and ListBox: stated, sampled, not proved
+/-! ## TextView and ListBox
 
-The full statements for the two remaining widgets.  They are FALSE for the code
-as it is (findings `textview-control-char`, `listbox-control-char`): a C0 control
+The full statements for the two remaining widgets are FALSE for the code as it
+is (findings `textview-control-char`, `listbox-control-char`): a C0 control
 character or DEL counts 0 columns in `wcwidth.Trim`/`TrimWcwidth` but is written
-as `^X` (2 columns), so a trimmed line can still wrap.  Outside that class they
-are only checked by the differential run and the oracle (the window arithmetic
-of `getVerticalWindow`/`getHorizontalWindow` and `ExtendRight` are modelled and
-tied, but no theorem is proved about them). -/
+as `^X` (2 columns), so a trimmed line can still wrap (`C34_counterexample`).
+Round 2: the bound is PROVED for exactly the complement of that class —
+`C34_textview_fits_partial`, `C34_listbox_fits_partial` (hypothesis: no byte
+`< 0x20` or `= 0x7f` in the lines/items; items of the vertical list box may
+contain newlines, which separate the lines of a multi-line item).  The proofs
+cover the window arithmetic of `getVerticalWindow`/`getHorizontalWindow`, the
+cropping, `croppedLines`, the scrollbars and `ExtendRight`/`ExtendDown`, and
+show that no slice/index/division/`strings.Repeat` can panic and that the model's
+loop fuel is never exhausted. -/
 
 /-- `TextView.Render(W, H)` for `W ≥ 2`, `H ≥ 1`, `First ≥ 0`: at most `H` lines, each at most `W` wide. -/
 def C34_full_textview : Prop :=
@@ -341,3 +365,81 @@ theorem C34_counterexample : ¬ C34_full_textview := by
   rw [hb] at e
   simp only at e
   omega
+
+/-! ### the proved bound: lines/items without C0 control characters and DEL -/
+
+/-- `TextView.Render(W, H)` for `W ≥ 2`, `H ≥ 1`, `First ≥ 0` and lines without C0 control
+characters/DEL (`NoCtl`: no byte `< 0x20` or `= 0x7f`): no panic, at most `H` lines, each at most
+`W` wide (with and without the scrollbar).  The hypothesis excludes exactly the finding class
+`textview-control-char`. -/
+theorem C34_textview_fits_partial (wd : Int → Int) (ok : WdOK wd) (sc : Bool) (lines : List Bytes)
+    (first W H : Int) (hW : 2 ≤ W) (hH : 1 ≤ H) (hf : 0 ≤ first) (hc : ∀ l ∈ lines, NoCtl l) :
+    ∃ buf, textViewRender wd sc lines first W H = .ok buf ∧ (buf.lines.length : Int) ≤ H ∧
+      ∀ l ∈ buf.lines, lineWidth wd l ≤ W :=
+  textView_fits wd ok sc lines first W H hW hH hf hc
+
+-- non-vacuity: three control-free lines "a世b" at 2×2, scrolled to the end: 2 lines (text column + scrollbar)
+example : (∀ l ∈ [exStr, exStr, exStr], NoCtl l) ∧
+    (match textViewRender exWd true [exStr, exStr, exStr] 5 2 2 with
+      | .ok b => b.lines
+      | _ => []) = [[[0x61], [0x20]], [[0x61], [0x20]]] := by decide
+
+/-- Vertical `ListBox.Render(W, H)` for `W ≥ 2`, `H ≥ 1`, padding 0 or 1, ANY selection and `First`
+(the code clamps them), items without C0 control characters/DEL other than the newlines that
+separate the lines of a multi-line item (`NoCtlNL`): no panic, at most `H` lines, each at most `W` wide. -/
+theorem C34_listbox_vertical_fits_partial (wd : Int → Int) (ok : WdOK wd) (ext : Bool) (ph : List Bytes)
+    (items : List (List Bytes)) (sel first pad W H : Int) (hW : 2 ≤ W) (hH : 1 ≤ H) (hp0 : 0 ≤ pad) (hp1 : pad ≤ 1)
+    (hc : ∀ it ∈ items, ∀ seg ∈ it, NoCtlNL seg) :
+    ∃ buf, listBoxRender wd false ph items sel first pad ext W H = .ok buf ∧ (buf.lines.length : Int) ≤ H ∧
+      ∀ l ∈ buf.lines, lineWidth wd l ≤ W := by
+  unfold listBoxRender
+  cases items with
+  | nil => exact C34_label_fits wd ok ph W H hW (by omega)
+  | cons it its =>
+    simp only [List.isEmpty_cons, Bool.false_eq_true, if_false]
+    exact listBoxVertical_fits wd ok (it :: its) sel first pad ext W H hW hH hp0 hp1 (by simp) hc
+
+/-- Horizontal `ListBox.Render(W, H)` for `W ≥ 2`, `H ≥ 1`, padding 0 or 1, `First ≥ 0`, selection
+within the items, items without C0 control characters/DEL (`NoCtl`; a horizontal item is one
+line): no panic (no division by zero, the window loops end), at most `H` lines, each at most `W` wide. -/
+theorem C34_listbox_horizontal_fits_partial (wd : Int → Int) (ok : WdOK wd) (ext : Bool) (ph : List Bytes)
+    (items : List (List Bytes)) (sel first pad W H : Int) (hW : 2 ≤ W) (hH : 1 ≤ H) (hf : 0 ≤ first)
+    (hp0 : 0 ≤ pad) (hp1 : pad ≤ 1) (hs : items ≠ [] → 0 ≤ sel ∧ sel < items.length)
+    (hc : ∀ it ∈ items, ∀ seg ∈ it, NoCtl seg) :
+    ∃ buf, listBoxRender wd true ph items sel first pad ext W H = .ok buf ∧ (buf.lines.length : Int) ≤ H ∧
+      ∀ l ∈ buf.lines, lineWidth wd l ≤ W := by
+  unfold listBoxRender
+  cases items with
+  | nil => exact C34_label_fits wd ok ph W H hW (by omega)
+  | cons it its =>
+    simp only [List.isEmpty_cons, Bool.false_eq_true, if_false, if_true]
+    have := hs (by simp)
+    exact listBoxHorizontal_fits wd ok (it :: its) sel first pad ext W H hW hH hf hp0 hp1 (by simp) this.1 this.2 hc
+
+/-- `C34_full_listbox` restricted to items without C0 control characters/DEL — exactly the
+complement of the finding class `listbox-control-char` (in the vertical layout a newline is the
+line separator of a multi-line item, not a control character of a line). -/
+theorem C34_listbox_fits_partial (wd : Int → Int) (ok : WdOK wd) (horizontal ext : Bool) (ph : List Bytes)
+    (items : List (List Bytes)) (sel first pad W H : Int) (hW : 2 ≤ W) (hH : 1 ≤ H) (hf : 0 ≤ first)
+    (hp0 : 0 ≤ pad) (hp1 : pad ≤ 1) (hs : items ≠ [] → 0 ≤ sel ∧ sel < items.length)
+    (hc : ∀ it ∈ items, ∀ seg ∈ it, if horizontal then NoCtl seg else NoCtlNL seg) :
+    ∃ buf, listBoxRender wd horizontal ph items sel first pad ext W H = .ok buf ∧
+      (buf.lines.length : Int) ≤ H ∧ ∀ l ∈ buf.lines, lineWidth wd l ≤ W := by
+  cases horizontal with
+  | true =>
+    exact C34_listbox_horizontal_fits_partial wd ok ext ph items sel first pad W H hW hH hf hp0 hp1 hs
+      (fun it hit seg hseg => by simpa using hc it hit seg hseg)
+  | false =>
+    exact C34_listbox_vertical_fits_partial wd ok ext ph items sel first pad W H hW hH hp0 hp1
+      (fun it hit seg hseg => by simpa using hc it hit seg hseg)
+
+-- non-vacuity: vertical, items "a", "b\nc\nd\ne\nf" (the witness of the fixed cropping defect) at 10×3: 3 lines
+example : (∀ it ∈ [[[0x61]], [[0x62, 10, 0x63, 10, 0x64, 10, 0x65, 10, 0x66]]], ∀ seg ∈ it, NoCtlNL seg) ∧
+    (match listBoxRender exWd false [] [[[0x61]], [[0x62, 10, 0x63, 10, 0x64, 10, 0x65, 10, 0x66]]] 0 0 0 false 10 3 with
+      | .ok b => b.lines.length
+      | _ => 0) = 3 := by decide
+-- non-vacuity: horizontal, five items "a世b" at 7×2 with the last selected: 2 lines (one row of columns + scrollbar)
+example : (∀ it ∈ [[exStr], [exStr], [exStr], [exStr], [exStr]], ∀ seg ∈ it, NoCtl seg) ∧
+    (match listBoxRender exWd true [] [[exStr], [exStr], [exStr], [exStr], [exStr]] 4 0 0 false 7 2 with
+      | .ok b => (b.lines.length, b.lines.map (lineWidth exWd))
+      | _ => (0, [])) = (2, [4, 7]) := by decide
